@@ -81,3 +81,14 @@ c('ctl-rename-local', 'src/db.rs', "\t\tlet has_flushed = self.log.flush_one(min
 EXTRA_FILES = {
     'ctl-extract-sync-helper': ('src/log.rs', "\tfn log_path(root: &std::path::Path, id: u32) -> std::path::PathBuf {", "\tfn sync_file(file: &std::fs::File) -> Result<()> {\n\t\ttry_io!(file.sync_data());\n\t\tOk(())\n\t}\n\n\tfn log_path(root: &std::path::Path, id: u32) -> std::path::PathBuf {"),
 }
+
+# ---- C17
+m('49-log-open-before-metadata', 'src/db.rs', "\t\tlet metadata = options.load_and_validate_metadata(opening_mode == OpeningMode::Create)?;\n\t\tlet mut columns = Vec::with_capacity(metadata.columns.len());\n\t\tlet mut commit_overlay = Vec::with_capacity(metadata.columns.len());\n\t\tlet log = Log::open(options)?;",
+  "\t\tlet log = Log::open(options)?;\n\t\tlet metadata = options.load_and_validate_metadata(opening_mode == OpeningMode::Create)?;\n\t\tlet mut columns = Vec::with_capacity(metadata.columns.len());\n\t\tlet mut commit_overlay = Vec::with_capacity(metadata.columns.len());", {'C17': ['1b metadata-validated-before-log-scan']})
+m('50-write-metadata-without-create', 'src/options.rs', "\t\t} else if create {\n\t\t\tlet s: Salt", "\t\t} else if create || self.salt.is_some() {\n\t\t\tlet s: Salt", {'C17': ['1g write-only-with-create']})
+m('51-key-renamed-on-writer-side', 'src/options.rs', "\"preimage: {}, uniform: {}, refc: {}, compression", "\"preimage: {}, uniform: {}, ref_counted: {}, compression", {'C17': ['3c writer-reader-agree']})
+m('51b-keys-swapped-in-reader', 'src/options.rs', "\t\tlet multitree = vals.get(\"multitree\").and_then(|c| c.parse().ok()).unwrap_or(false);\n\t\tlet append_only = vals.get(\"append_only\").and_then(|c| c.parse().ok()).unwrap_or(false);",
+  "\t\tlet multitree = vals.get(\"append_only\").and_then(|c| c.parse().ok()).unwrap_or(false);\n\t\tlet append_only = vals.get(\"multitree\").and_then(|c| c.parse().ok()).unwrap_or(false);", {'C17': ['3c writer-reader-agree']})
+m('53-predicate-without-separator', 'src/index.rs', "\t\tname.starts_with(&format!(\"index_{col:02}_\"))", "\t\tname.starts_with(&format!(\"index_{col:02}\"))", {'C17': ['4e predicate-is-prefix-of-name-format index::TableId']})
+m('53b-drop_files-other-column', 'src/column.rs', "\t\t\t\tif crate::index::TableId::is_file_name(column, file) ||", "\t\t\t\tif crate::index::TableId::is_file_name(column / 10, file) ||", {'C17': []})
+m('49b-reset-without-precheck', 'src/db.rs', "\t\tlet salt = Self::precheck_column_operation(options)?;\n\t\tSelf::remove_column_files(options, index)?;\n", "\t\tSelf::remove_column_files(options, index)?;\n\t\tlet salt = Self::precheck_column_operation(options)?;\n", {'C17': ['4i open-before-change db::Db::reset_column']})
